@@ -217,8 +217,9 @@ CLAIMED = {
             'truncation goes the wrong way, then rounded once with the caller\'s (prec, rnd); the '
             'interval constants evaluate (floor, ceiling) at one precision.  Decides these clauses, '
             'not the digits.',
-            'That each *_fixed function returns a true floor (series length, guard bits) is numerical '
-            'and not decided; seeded change C17-2 (too few series terms for e) is not detected.',
+            'That each *_fixed function returns a true floor is numerical; decided for the three closed-form '
+            'series lengths (e, pi, acot[h]: formula evaluated against the convergence rate, K-R4), not for the '
+            'loop-controlled series of the other constants.',
             'DESIGN.md section 4 (C17)'),
     'C24': ('H-termination',
             'static analysis: loop-shape rules over every while loop (own live exit, condition '
